@@ -152,6 +152,10 @@ OPKEY = {'bond': 'bond', 'unbond': 'unbond_bsei', 'convert_stsei': 'convert_stse
 
 
 def replay_any(v, run_scenario):
+    if (v.get('key') or '').startswith('hub_update_params:'):
+        from smir.replay import generic_replay
+        import checks.c20 as c20
+        return generic_replay(c20)(v, run_scenario)
     m = v['model']
     key = v.get('key') or ''
     opk, claim = key.split(':')
@@ -217,5 +221,14 @@ def oracle(m, op, claim, out):
         bad.append('fee %d exceeds amount x fee rate' % (nofee - cred))
     return bad
 
+
+def _threshold_kept(ctx):
+    """the threshold and fee rate the four fee paths read are the ones the owner configured: an UpdateParams that omits them
+    leaves them unchanged (world and claims of C20's hub UpdateParams obligation)"""
+    from checks.c20 import ob_hub_update_params
+    return ob_hub_update_params(ctx)
+
+
+OBLIGATIONS.append(('configured_threshold_and_fee_kept', _threshold_kept))
 
 REPLAY = {'*': replay_any}
